@@ -42,7 +42,7 @@ static std::vector<uint8_t> slurp(const std::string& path) {
 
 // ------------------------------------------------------------------ canonical dump of a loaded library
 struct Big {};
-static const double LIMIT = 1125899906842624.0;  // 2^50
+static const double LIMIT = 1099511627776.0;  // 2^40: beyond it the doubles are too coarse for the circle recognition
 static int64_t grid(double v, double scaling) {
     double t = v * scaling;
     if (!(fabs(t) < LIMIT)) throw Big();
@@ -431,7 +431,7 @@ struct RandGen {
 };
 
 // ------------------------------------------------------------------ one case
-static std::string read_real(const std::vector<uint8_t>& bytes) {
+static std::string read_real_once(const std::vector<uint8_t>& bytes, unsigned seconds) {
     std::string f = g_outdir + "/r.oas";
     spit(f, bytes);
     std::string res = in_child([&](FILE* o) {
@@ -451,10 +451,17 @@ static std::string read_real(const std::vector<uint8_t>& bytes) {
             default: r = "error" + std::to_string((int)ec);
         }
         fputs(r.c_str(), o);
-    }, 10);
+    }, seconds);
     if (res.compare(0, 5, "CRASH") == 0) return "crash";
     if (res == "HANG") return "hang";
     return res;
+}
+// a time-out is taken for a hang only when it repeats with a much longer limit (the machine may be loaded; read_oas
+// legitimately spends seconds writing table fillers for reference numbers around 1e8)
+static std::string read_real(const std::vector<uint8_t>& bytes) {
+    std::string r = read_real_once(bytes, 10);
+    if (r == "hang") r = read_real_once(bytes, 90);
+    return r;
 }
 
 static void run_case(Out& out, const std::string& kind, const std::string& payload) {
